@@ -51,8 +51,8 @@ def ClsInv (x : Option Rc) (y : Option ObjKeys) : Prop :=
     ksMirror rc.keys y = true ∧ rc.keys.distinct = true ∧
     (∀ ok, y = some ok → ok.sideSetsEmpty = true)
 
-/-- The system invariant behind `mirror`, `single_signer` and `process_emits_applicable`. -/
-structure Inv (s : Sys) : Prop where
+/-- Class part of the system invariant behind `mirror`, `single_signer` and `process_emits_applicable`. -/
+structure InvCore (s : Sys) : Prop where
   /-- class names are unique -/
   nodup : (keys s.ca.classes).Nodup
   /-- class names are below `next_class_name` -/
@@ -323,6 +323,7 @@ def Good (s : Ca) : Ev → Prop
   | .key r (.pendingAdded k) => ∀ rc c, get s.classes r = some rc → rc.keys = .active c → k ≠ c.id
   | .key r (.pendingToNew n) =>
     ∀ rc p c, get s.classes r = some rc → rc.keys = .rollPending p c → n.id = p.id
+  | .childCertIssued _ r _ => ∃ rc, get s.classes r = some rc ∧ rc.keys.current.isSome = true
   | _ => True
 
 theorem filter_eq_self_of_get {V : Type} {m : AMap Rcn V} (hnd : (keys m).Nodup) (q : Rcn × V → Bool)
@@ -334,9 +335,65 @@ theorem nodup_filter {V : Type} {m : AMap Rcn V} (hnd : (keys m).Nodup) (q : Rcn
   unfold keys
   exact (List.filter_sublist.map _).nodup hnd
 
-/-- A single event keeps the invariant. -/
-theorem inv_step {ca ca' : Ca} {o o' : Objs} {e : Ev} (hinv : Inv ⟨ca, o⟩) (hgood : Good ca e)
-    (ha : ca.apply e = some ca') (ho : o.step e = .ok o') : Inv ⟨ca', o'⟩ := by
+theorem apply_current_isSome {ks ks' : KeyState} {e : KeyEv} (h : ks.apply e = some ks')
+    (hc : ks.current.isSome = true) : ks'.current.isSome = true := by
+  cases e <;> cases ks <;>
+    simp [KeyState.apply, KeyState.applyRequested, KeyState.applyReceived, KeyState.applyPendingAdded,
+      KeyState.applyPendingToNew, KeyState.applyPendingToActive, KeyState.applyActivated,
+      KeyState.applyFinished, KeyState.current] at h hc ⊢ <;>
+    (try split at h) <;> (try (cases h; simp [KeyState.current])) <;> (try (subst h; simp [KeyState.current]))
+
+theorem get_revokeEverywhere (m : AMap Handle Child) (k : KeyId) (ch : Handle) :
+    get (revokeEverywhere m k) ch =
+      (get m ch).map fun c => if c.isIssued k then { c with usedKeys := set c.usedKeys k .revoked } else c := by
+  induction m with
+  | nil => rfl
+  | cons p t ih =>
+    obtain ⟨h, c⟩ := p
+    simp only [revokeEverywhere, List.map_cons] at ih ⊢
+    by_cases hi : c.isIssued k = true
+    · simp only [hi, if_true, get_cons]
+      by_cases hh : h = ch
+      · simp [hh, hi]
+      · simp only [hh, if_false]; exact ih
+    · simp only [hi, Bool.false_eq_true, if_false, get_cons]
+      by_cases hh : h = ch
+      · simp [hh, hi]
+      · simp only [hh, if_false]; exact ih
+
+/-- Revoking keys everywhere adds no key in use. -/
+theorem inUse_of_revokeAll (ks : List KeyId) (m : AMap Handle Child) (ch : Handle) (c' : Child) (k : KeyId)
+    (r : Rcn) (hg : get (ks.foldl revokeEverywhere m) ch = some c')
+    (hu : get c'.usedKeys k = some (.inUse r)) :
+    ∃ c, get m ch = some c ∧ get c.usedKeys k = some (.inUse r) := by
+  induction ks generalizing m with
+  | nil => exact ⟨c', hg, hu⟩
+  | cons k0 ks ih =>
+    simp only [List.foldl_cons] at hg
+    obtain ⟨c1, hc1, hu1⟩ := ih _ hg
+    rw [get_revokeEverywhere] at hc1
+    cases hm : get m ch with
+    | none => simp [hm] at hc1
+    | some c =>
+      simp only [hm, Option.map_some, Option.some.injEq] at hc1
+      refine ⟨c, rfl, ?_⟩
+      by_cases hi : c.isIssued k0 = true
+      · simp only [hi, if_true] at hc1; subst hc1
+        simp only [get_set] at hu1
+        by_cases hk : k0 = k
+        · simp [hk] at hu1
+        · simpa [hk] using hu1
+      · simp only [hi, Bool.false_eq_true, if_false] at hc1; subst hc1; exact hu1
+
+/-- A key in use in class `r`: the name was handed out, and the class – if it still exists – is
+past `pending`. -/
+def UsedInv (ca : Ca) : Prop :=
+  ∀ ch c k r, get ca.children ch = some c → get c.usedKeys k = some (.inUse r) →
+    r < ca.nextClass ∧ ∀ rc, get ca.classes r = some rc → rc.keys.current.isSome = true
+
+/-- A single event keeps the class part of the invariant. -/
+theorem invCore_step {ca ca' : Ca} {o o' : Objs} {e : Ev} (hinv : InvCore ⟨ca, o⟩) (hgood : Good ca e)
+    (ha : ca.apply e = some ca') (ho : o.step e = .ok o') : InvCore ⟨ca', o'⟩ := by
   obtain ⟨hnd, hfr, hcls⟩ := hinv
   simp only at hnd hfr hcls
   cases e with
@@ -568,5 +625,207 @@ theorem inv_step {ca ca' : Ca} {o o' : Objs} {e : Ev} (hinv : Inv ⟨ca, o⟩) (
     simp only [Ca.apply, Option.some.injEq] at ha; subst ha
     simp only [Objs.step, Except.ok.injEq] at ho; subst ho
     exact ⟨hnd, hfr, hcls⟩
+
+/-- A single event keeps the used-key part of the invariant. -/
+theorem used_step {ca ca' : Ca} {e : Ev} (hnd : (keys ca.classes).Nodup)
+    (hfr : ∀ r, (get ca.classes r).isSome = true → r < ca.nextClass)
+    (hu : UsedInv ca) (hgood : Good ca e) (ha : ca.apply e = some ca') : UsedInv ca' := by
+  -- children unchanged, classes changed at one name with `current` kept
+  have classOnly : ∀ (cl : AMap Rcn Rc) (r0 : Rcn),
+      (∀ r, r ≠ r0 → get cl r = get ca.classes r) →
+      (∀ rc', get cl r0 = some rc' → ∃ rc, get ca.classes r0 = some rc ∧
+        (rc.keys.current.isSome = true → rc'.keys.current.isSome = true)) →
+      UsedInv { ca with classes := cl } := by
+    intro cl r0 hframe hself ch c k r hc hk
+    obtain ⟨h1, h2⟩ := hu ch c k r hc hk
+    refine ⟨h1, ?_⟩
+    intro rc' hrc'
+    by_cases hr : r = r0
+    · subst hr
+      obtain ⟨rc, hrc, himp⟩ := hself rc' hrc'
+      exact himp (h2 rc hrc)
+    · rw [hframe r hr] at hrc'; exact h2 rc' hrc'
+  -- one child changed without new keys in use
+  have childOnly : ∀ (ch0 : Handle) (c0 c0' : Child), get ca.children ch0 = some c0 →
+      (∀ k r, get c0'.usedKeys k = some (.inUse r) → get c0.usedKeys k = some (.inUse r)) →
+      UsedInv { ca with children := set ca.children ch0 c0' } := by
+    intro ch0 c0 c0' hc0 hsub ch c k r hc hk
+    simp only [get_set] at hc
+    by_cases h : ch0 = ch
+    · subst h
+      simp only [if_true, Option.some.injEq] at hc; subst hc
+      exact hu ch0 c0 k r hc0 (hsub k r hk)
+    · simp only [h, if_false] at hc; exact hu ch c k r hc hk
+  cases e with
+  | rcAdded r p pr k0 =>
+    simp only [Ca.apply, Option.some.injEq] at ha; subst ha
+    simp only [Good] at hgood
+    intro ch c k r' hc hk
+    obtain ⟨h1, h2⟩ := hu ch c k r' hc hk
+    refine ⟨Nat.lt_succ_of_lt h1, ?_⟩
+    intro rc hrc
+    have hne : r ≠ r' := by
+      intro he; subst he; rw [hgood] at h1; exact absurd h1 (Nat.lt_irrefl _)
+    simp only [get_set_ne _ _ hne] at hrc
+    exact h2 rc hrc
+  | rcRemoved r =>
+    simp only [Ca.apply, Option.some.injEq] at ha; subst ha
+    intro ch c k r' hc hk
+    obtain ⟨h1, h2⟩ := hu ch c k r' hc hk
+    refine ⟨h1, ?_⟩
+    intro rc hrc
+    simp only [get_del] at hrc
+    by_cases h : r = r'
+    · simp [h] at hrc
+    · simp only [h, if_false] at hrc; exact h2 rc hrc
+  | key r ke =>
+    by_cases hun : ∃ k, ke = .unexpected k
+    · obtain ⟨k, rfl⟩ := hun
+      simp only [Ca.apply, Option.some.injEq] at ha; subst ha; exact hu
+    · have happ : ca.apply (.key r ke) =
+          ca.withClass r fun rc => (rc.keys.apply ke).map fun ks => { rc with keys := ks } := by
+        cases ke <;> first | rfl | exact absurd ⟨_, rfl⟩ hun
+      rw [happ] at ha
+      obtain ⟨rc, rc', hg, hf, rfl⟩ := Ca.withClass_some ha
+      cases hk : rc.keys.apply ke with
+      | none => simp [hk] at hf
+      | some ks' =>
+        simp only [hk, Option.map_some, Option.some.injEq] at hf; subst hf
+        refine classOnly _ r (get_set_ne' _ _ _) ?_
+        intro rc' hrc'
+        simp only [get_set_self, Option.some.injEq] at hrc'; subst hrc'
+        exact ⟨rc, hg, fun h => apply_current_isSome hk h⟩
+  | products r u =>
+    simp only [Ca.apply] at ha
+    obtain ⟨rc, rc', hg, hf, rfl⟩ := Ca.withClass_some ha
+    simp only [Option.some.injEq] at hf; subst hf
+    refine classOnly _ r (get_set_ne' _ _ _) ?_
+    intro rc' hrc'
+    simp only [get_set_self, Option.some.injEq] at hrc'; subst hrc'
+    exact ⟨rc, hg, fun h => h⟩
+  | childCerts r u =>
+    simp only [Ca.apply] at ha
+    cases hw : ca.withClass r (fun rc => some { rc with certs := rc.certs.applyUpd u }) with
+    | none => simp [hw] at ha
+    | some s1 =>
+      simp only [hw, Option.some.injEq] at ha; subst ha
+      obtain ⟨rc, rc', hg, hf, rfl⟩ := Ca.withClass_some hw
+      simp only [Option.some.injEq] at hf; subst hf
+      have h1 : UsedInv { ca with classes := set ca.classes r { rc with certs := rc.certs.applyUpd u } } := by
+        refine classOnly _ r (get_set_ne' _ _ _) ?_
+        intro rc' hrc'
+        simp only [get_set_self, Option.some.injEq] at hrc'; subst hrc'
+        exact ⟨rc, hg, fun h => h⟩
+      intro ch c k r' hc hk
+      simp only at hc
+      obtain ⟨c0, hc0, hk0⟩ := inUse_of_revokeAll _ _ _ _ _ _ hc hk
+      exact h1 ch c0 k r' hc0 hk0
+  | childKeyRevoked ch0 r k0 =>
+    simp only [Ca.apply] at ha
+    cases hw : ca.withClass r (fun rc => some { rc with certs := rc.certs.removeRevoked k0 }) with
+    | none => simp [hw] at ha
+    | some s1 =>
+      simp only [hw] at ha
+      obtain ⟨c0, hc0, rfl⟩ := Ca.withChild_some ha
+      obtain ⟨rc, rc', hg, hf, rfl⟩ := Ca.withClass_some hw
+      simp only [Option.some.injEq] at hf; subst hf
+      have h1 : UsedInv { ca with classes := set ca.classes r { rc with certs := rc.certs.removeRevoked k0 } } := by
+        refine classOnly _ r (get_set_ne' _ _ _) ?_
+        intro rc' hrc'
+        simp only [get_set_self, Option.some.injEq] at hrc'; subst hrc'
+        exact ⟨rc, hg, fun h => h⟩
+      intro ch c k r' hc hk
+      simp only [get_set] at hc
+      by_cases h : ch0 = ch
+      · subst h
+        simp only [if_true, Option.some.injEq] at hc; subst hc
+        simp only [get_set] at hk
+        by_cases hkk : k0 = k
+        · simp [hkk] at hk
+        · simp only [hkk, if_false] at hk
+          exact h1 ch0 c0 k r' hc0 hk
+      · simp only [h, if_false] at hc; exact h1 ch c k r' hc hk
+  | childAdded ch0 res =>
+    simp only [Ca.apply, Option.some.injEq] at ha; subst ha
+    intro ch c k r hc hk
+    simp only [get_set] at hc
+    by_cases h : ch0 = ch
+    · simp only [h, if_true, Option.some.injEq] at hc; subst hc
+      simp at hk
+    · simp only [h, if_false] at hc; exact hu ch c k r hc hk
+  | childCertIssued ch0 r0 k0 =>
+    simp only [Ca.apply] at ha
+    obtain ⟨c0, hc0, rfl⟩ := Ca.withChild_some ha
+    simp only [Good] at hgood
+    obtain ⟨rc0, hrc0, hcur0⟩ := hgood
+    intro ch c k r hc hk
+    simp only [get_set] at hc
+    by_cases h : ch0 = ch
+    · subst h
+      simp only [if_true, Option.some.injEq] at hc; subst hc
+      simp only [get_set] at hk
+      by_cases hkk : k0 = k
+      · simp only [hkk, if_true, Option.some.injEq, UsedKey.inUse.injEq] at hk; subst hk
+        refine ⟨hfr r0 (by simp [hrc0]), ?_⟩
+        intro rc hrc; rw [hrc0] at hrc; cases hrc; exact hcur0
+      · simp only [hkk, if_false] at hk; exact hu ch0 c0 k r hc0 hk
+    · simp only [h, if_false] at hc; exact hu ch c k r hc hk
+  | childUpdatedResources ch0 res =>
+    simp only [Ca.apply] at ha
+    obtain ⟨c0, hc0, rfl⟩ := Ca.withChild_some ha
+    exact childOnly ch0 c0 _ hc0 (fun _ _ h => h)
+  | childUpdatedId ch0 =>
+    simp only [Ca.apply] at ha
+    obtain ⟨c0, hc0, rfl⟩ := Ca.withChild_some ha
+    exact childOnly ch0 c0 _ hc0 (fun _ _ h => h)
+  | childMapping ch0 n m =>
+    simp only [Ca.apply] at ha
+    obtain ⟨c0, hc0, rfl⟩ := Ca.withChild_some ha
+    exact childOnly ch0 c0 _ hc0 (fun _ _ h => h)
+  | childRemoved ch0 =>
+    simp only [Ca.apply, Option.some.injEq] at ha; subst ha
+    intro ch c k r hc hk
+    simp only [get_del] at hc
+    by_cases h : ch0 = ch
+    · simp [h] at hc
+    · simp only [h, if_false] at hc; exact hu ch c k r hc hk
+  | childSuspended ch0 =>
+    simp only [Ca.apply] at ha
+    obtain ⟨c0, hc0, rfl⟩ := Ca.withChild_some ha
+    exact childOnly ch0 c0 _ hc0 (fun _ _ h => h)
+  | childUnsuspended ch0 =>
+    simp only [Ca.apply] at ha
+    obtain ⟨c0, hc0, rfl⟩ := Ca.withChild_some ha
+    exact childOnly ch0 c0 _ hc0 (fun _ _ h => h)
+  | parentAdded p =>
+    simp only [Ca.apply, Option.some.injEq] at ha; subst ha; exact hu
+  | parentRemoved p =>
+    simp only [Ca.apply, Option.some.injEq] at ha; subst ha
+    intro ch c k r hc hk
+    obtain ⟨h1, h2⟩ := hu ch c k r hc hk
+    refine ⟨h1, ?_⟩
+    intro rc hrc
+    have hm := mem_of_get hrc
+    have hm' := (List.mem_filter.mp hm).1
+    exact h2 rc (get_of_mem_nodup hnd hm')
+  | repoUpdated =>
+    simp only [Ca.apply, Option.some.injEq] at ha; subst ha; exact hu
+  | other =>
+    simp only [Ca.apply, Option.some.injEq] at ha; subst ha; exact hu
+
+/-- The invariant of reachable systems. -/
+structure Inv (s : Sys) : Prop where
+  core : InvCore s
+  used : UsedInv s.ca
+
+theorem inv_step {ca ca' : Ca} {o o' : Objs} {e : Ev} (hinv : Inv ⟨ca, o⟩) (hgood : Good ca e)
+    (ha : ca.apply e = some ca') (ho : o.step e = .ok o') : Inv ⟨ca', o'⟩ :=
+  ⟨invCore_step hinv.core hgood ha ho, used_step hinv.core.nodup hinv.core.fresh hinv.used hgood ha⟩
+
+theorem inv_init : Inv {} := by
+  refine ⟨⟨List.nodup_nil, ?_, ?_⟩, ?_⟩
+  · intro r h; simp at h
+  · intro r; simp [ClsInv]
+  · intro ch c k r h; simp at h
 
 end KM.CaK
